@@ -62,7 +62,15 @@ type FuncRun struct {
 
 func (run *FuncRun) freshName(prefix string) string {
 	run.counter++
-	return fmt.Sprintf("%s!%d", prefix, run.counter)
+	var b strings.Builder
+	for _, r := range prefix {
+		if r >= 'a' && r <= 'z' || r >= 'A' && r <= 'Z' || r >= '0' && r <= '9' || r == '_' || r == '.' || r == '$' {
+			b.WriteRune(r)
+		} else {
+			b.WriteByte('_')
+		}
+	}
+	return fmt.Sprintf("%s!%d", b.String(), run.counter)
 }
 
 func (run *FuncRun) nextEpoch() int { run.epochs++; return run.epochs }
